@@ -244,6 +244,9 @@ def check(case):
         inst = cls()
 
     sig = inspect.signature(plain, follow_wrapped=False)
+    if case.get("inner_decorator") == 3:
+        # log_call keeps the function's signature: the outer decorator binds what the function itself declares
+        sig = inspect.signature(inner, follow_wrapped=False)
     expected_type = deco.get("action_type")
     if expected_type is None:
         expected_type = "genmod18.C.target" if method else "genmod18.target"
